@@ -23,13 +23,19 @@ def gen_plan(prop, seed, index, tier="quick"):
     timeout_ms = r.choice([100, 300, 1000])
     quirk = r.random() < 0.1
     reqs = []
+    big = []
     for i in range(n):
         kind = r.choice(KINDS if mode == "conn" else KINDS[:4])
         delay = r.choice([0.0, 0.0, 0.001, 0.01, 0.05])
         if r.random() < 0.12:
             delay = timeout_ms / 1000 * r.choice([0.9, 1.0, 1.5, 3.0])  # around / past the timeout
         waiter = r.choice(["await", "await", "await", "cancel"])
-        reqs.append({"kind": kind, "gap": r.choice([0, 0, 0, 0.0005, 0.01]), "delay": delay,
+        pad_to = 0
+        if kind == "delrec" and r.random() < 0.4:
+            # compact strings whose length sits on an unsigned-varint boundary
+            pad_to = r.choice([126, 127, 128, 129, 255, 16382, 16383, 16384])
+            big.append(pad_to > 1000)
+        reqs.append({"kind": kind, "pad_to": pad_to, "gap": r.choice([0, 0, 0, 0.0005, 0.01]), "delay": delay,
                      "waiter": waiter, "cancel_after": r.choice([0.0, 0.001, 0.02, 0.2]),
                      "cuts": sorted({r.randint(1, 40) for _ in range(r.choice([0, 0, 1, 2, 3]))})})
     fault = None
@@ -41,7 +47,8 @@ def gen_plan(prop, seed, index, tier="quick"):
     return {"format": 1, "prop": prop, "engine": "conn", "seed": scenario.subseed(seed, prop, index),
             "index": index, "mode": mode, "timeout_ms": timeout_ms, "quirk": quirk,
             "corr_start": r.choice([0, 0, 5, 2**31 - 1 - r.randint(0, 6)]),
-            "bytewise": r.random() < 0.15,
+            # (byte-wise delivery of a 16 KiB frame would be 16 384 events at one instant)
+            "bytewise": r.random() < 0.15 and not any(big),
             "cluster": {"lat": [0.0001, r.choice([0.0003, 0.003])], "chunk": "whole",
                         "coalesce_eof": r.random() < 0.3},
             "reqs": reqs, "fault": fault}
@@ -145,7 +152,10 @@ class Peer:
             return  # acks=0: no response
         i = self.index_of(req)
         spec = self.plan["reqs"][i] if 0 <= i < len(self.plan["reqs"]) else {"delay": 0, "cuts": []}
-        body, tokval = self.body_for(req, f"tok{i}", i)
+        tok = f"tok{i}"
+        if spec.get("pad_to") and req.name == "DeleteRecords":
+            tok = tok + "_" * max(0, spec["pad_to"] - len(tok))
+        body, tokval = self.body_for(req, tok, i)
         fault = self.plan.get("fault")
         fk = fault["kind"] if fault and fault["at"] == i else None
         corr = req.correlation_id
@@ -234,7 +244,7 @@ class Peer:
         if req.name == "Heartbeat":
             return b["generation_id"]
         if req.name == "DeleteRecords":
-            return int(b["topics"][0]["name"][1:])
+            return int(b["topics"][0]["name"][1:].rstrip("_"))
         return -1
 
     def api_table(self):
@@ -263,7 +273,7 @@ class Peer:
         raise RuntimeError(n)
 
 
-def make_request(kind, i):
+def make_request(kind, i, pad_to=0):
     from aiokafka.protocol.admin import DeleteRecordsRequest
     from aiokafka.protocol.coordination import FindCoordinatorRequest
     from aiokafka.protocol.group import HeartbeatRequest
@@ -277,7 +287,10 @@ def make_request(kind, i):
     if kind == "heartbeat":
         return HeartbeatRequest("g", i, "m")
     if kind == "delrec":
-        return DeleteRecordsRequest([(f"t{i}", [(0, i)])], 100)
+        name = f"t{i}"
+        if pad_to:
+            name = name + "_" * max(0, pad_to - len(name))
+        return DeleteRecordsRequest([(name, [(0, i)])], 100)
     if kind == "produce0":
         return ProduceRequest(transactional_id=None, required_acks=0, timeout=100,
                               topics=[("t", [(0, b"")])])
@@ -388,7 +401,7 @@ def execute(plan):
         for i, spec in enumerate(plan["reqs"]):
             if spec["gap"]:
                 await asyncio.sleep(spec["gap"])
-            req = make_request(spec["kind"], i)
+            req = make_request(spec["kind"], i, spec.get("pad_to", 0))
             w = {"i": i, "kind": spec["kind"], "spec": spec, "outcome": None, "t_send": world.now(),
                  "cancelled": False, "seq_send": world.log.seq}
             try:
@@ -466,6 +479,10 @@ def oracle(plan, world, peer, waiters, term, frames_delivered, state, timeout):
             continue
         if kind == "ok":
             want = 1000 + w["i"] if w["kind"] == "heartbeat" else f"tok{w['i']}"
+            pad_to = plan["reqs"][w["i"]].get("pad_to", 0) if w["kind"] == "delrec" else 0
+            if pad_to:
+                # the padded token must come back byte for byte (compact string of that length)
+                want = want + "_" * max(0, pad_to - len(want))
             if out[1] != want:
                 v("waiter_got_foreign_response", {"i": w["i"], "kind": w["kind"], "got": out[1],
                                                  "want": want})
@@ -511,7 +528,8 @@ def oracle(plan, world, peer, waiters, term, frames_delivered, state, timeout):
             tt, why_t = t, why
             break
         if why == "truncated":
-            hw = next((x for x in waiters if (f"tok{x['i']}" == tok or 1000 + x["i"] == tok)), None)
+            tk = tok.rstrip("_") if isinstance(tok, str) else tok
+            hw = next((x for x in waiters if (f"tok{x['i']}" == tk or 1000 + x["i"] == tk)), None)
             # a body is only decoded (and found malformed) for a waiter still waiting
             if hw is None or hw.get("t_done") is None or hw["t_done"] >= t:
                 tt, why_t = t, why
